@@ -85,8 +85,8 @@ CHECKS = {
  "C08": dict(
   technique="explicit-state exploration: exhaustive enumeration of all operation sequences <= depth per schedule fixture through the real DeliverTx on branches, with an independent step-function reference of the locked amount evaluated after every successful transaction",
   engine="E1",
-  text="3 (thorough 5) lockup/vesting schedule fixtures (vested-but-locked and unlocked-but-unvested windows included) x every sequence <= 3 (thorough 4) over 50 operations: spend attempts on 7 paths (bank send, multi-send, EVM value transfer, transfer forwarded by a contract, fee payment, DAO funding, governance deposit) x {1, spendable, spendable+1, whole balance}; delegation by message / by authz exec / through the staking precompile x {1, max delegatable, max+1}; undelegation; block boundary with unbonding completion; 50% slash; clawback; block-time jumps to every schedule event +-1. After every successful non-delegation transaction balance >= max(original - unlockedVested - trackedDelegated, unvested) computed from the grant parameters; every successful delegation <= balance - unvested; tracked delegation bounded by the reference's own counter.",
-  note="Zero gas prices (explicit fee operation instead). IBC transfer, ERC-20 conversion and liquidation are not in this alphabet.",
+  text="3 (thorough 5) lockup/vesting schedule fixtures (vested-but-locked and unlocked-but-unvested windows included) x every sequence <= 3 (thorough 4) over 58 operations: spend attempts on 9 paths (bank send, multi-send, EVM value transfer, transfer forwarded by a contract, fee payment, DAO funding, governance deposit, ICS-20 transfer by message, ICS-20 transfer through the precompile) x {1, spendable, spendable+1, whole balance}; delegation by message / by authz exec / through the staking precompile x {1, max delegatable, max+1}; undelegation; block boundary with unbonding completion; 50% slash; clawback; block-time jumps to every schedule event +-1. After every successful non-delegation transaction balance >= max(original - unlockedVested - trackedDelegated, unvested) computed from the grant parameters; every successful delegation <= balance - unvested; tracked delegation bounded by the reference's own counter.",
+  note="Zero gas prices (explicit fee operation instead). ERC-20 conversion is not in this alphabet (the vesting denomination of the fixtures is the staking/EVM denomination, which cannot be a token pair); liquidation moves locked coins by design and is C11's subject.",
   design="DESIGN.md §3 C08"),
  "C01": dict(
   technique="bounded-exhaustive enumeration of block histories, each executed on a reference node and replayed on independently constructed replicas under enumerated nondeterminism policies (forced map-iteration seed, shifted wall clock, interleaved CheckTx/queries, construction order), all ABCI responses and app hashes compared",
@@ -109,7 +109,7 @@ CHECKS = {
  "C15": dict(
   technique="bounded-exhaustive enumeration of block histories executed with real blocks; every registered invariant evaluated on the committed state after every block",
   engine="E2",
-  text="903 histories (quick): every template alone, every ordered pair in consecutive blocks and in one block over 21 templates (bank, EVM incl. contract creation and multi-account dirtying, staking / distribution precompiles, staking messages, clawback vesting, DAO, liquidation + token-pair registration, ERC20 conversion, failing transactions, double-sign evidence, downtime, three governance flows with deposits); thorough adds all triples of base templates. After each of the ~4000 commits all 12 crisis-keeper invariant routes (bank supply / non-negative, staking pools / shares / power, distribution can-withdraw / reference-count / module-account, gov module-account) are evaluated.",
+  text="1485 histories (quick): every template alone, every ordered pair in consecutive blocks and in one block over 27 templates (bank, EVM incl. contract creation and multi-account dirtying, staking / distribution precompiles, staking messages, clawback vesting, DAO, liquidation + token-pair registration, ERC20 conversion / transfer / transfer to the module address, full redeem, failing transactions, double-sign evidence, downtime, four governance flows with deposits, and two adversarial templates: coins pushed at the bonded / not-bonded / distribution / gov module accounts by MsgSend, MsgMultiSend with one and two outputs, a foreign denomination and EVM value; a governance deposit in two denominations burnt after a veto); thorough adds all triples of base templates. After each of the ~6700 commits all 12 crisis-keeper invariant routes (bank supply / non-negative, staking pools / shares / power, distribution can-withdraw / reference-count / module-account, gov module-account) are evaluated.",
   note="Invariants are evaluated between blocks on committed state. The E1 drivers C14 and C19 evaluate the same routes in their own states.",
   design="DESIGN.md §3 C15"),
  "C19": dict(
@@ -121,7 +121,7 @@ CHECKS = {
  "C10": dict(
   technique="explicit-state exploration: exhaustive enumeration of conversion sequences <= depth over five token pairs on the real msg servers and DeliverTx, backing invariants in every state and an exact-or-nothing step oracle",
   engine="E1",
-  text="Fixture: one coin-origin pair (module-owned ERC20 deployed by RegisterCoin) and four ERC20-origin pairs: an honest ERC20MinterBurnerDecimals, the repository's ERC20MaliciousDelayed and ERC20DirectBalanceManipulation (deployed from their shipped bytecode and registered by RegisterERC20) and a synthesised token that emits Transfer(x, module, n) logs without moving balances. Every sequence <= 3 (thorough 4) over 57 operations: convertCoin / convertERC20 x {1, half, all, all+1}, ERC20 transfer to the module address (hook path), bank send of the paired denomination (wrapper), pair toggle, holder burn. In every state: coin-origin ERC20 supply <= escrowed coins and escrow - supply == holder burns; ERC20-origin coin supply <= tokens escrowed by the module. Every operation moves exactly the amount between the two representations or changes nothing. Part B (IBC legs): a sixth pair is registered for the IBC voucher of the coin-origin denomination; every sequence <= 4 (thorough 5) over 30 operations - ibcSend of {coin-origin, voucher going home, ERC20-origin} x {1, all of coins+tokens, all+1} to a valid or garbage receiver (real MsgTransfer wrapper: ERC20 -> coin before sending), ibcRecv (erc20 middleware: coin -> ERC20 on arrival), ack, timeout (refund, then coin -> ERC20), conversions of both users, pair toggles: sender debited / recipient credited / refunded by exactly the amount across both representations, every rejected step changes nothing, backing invariants in every state.",
+  text="Fixture: one coin-origin pair (module-owned ERC20 deployed by RegisterCoin) and four ERC20-origin pairs: an honest ERC20MinterBurnerDecimals, the repository's ERC20MaliciousDelayed and ERC20DirectBalanceManipulation (deployed from their shipped bytecode and registered by RegisterERC20) and a synthesised token that emits Transfer(x, module, n) logs without moving balances. Every sequence <= 3 (thorough 4) over 63 operations: convertCoin / convertERC20 x {1, half, all, all+1}, ERC20 transfer to the module address (hook path), bank send of the paired denomination (wrapper), pair toggle, holder burn. In every state: coin-origin ERC20 supply <= escrowed coins and escrow - supply == holder burns; ERC20-origin coin supply <= tokens escrowed by the module. Every operation moves exactly the amount between the two representations or changes nothing. Part B (IBC legs): a sixth pair is registered for the IBC voucher of the coin-origin denomination; every sequence <= 4 (thorough 5) over 30 operations - ibcSend of {coin-origin, voucher going home, ERC20-origin} x {1, all of coins+tokens, all+1} to a valid or garbage receiver (real MsgTransfer wrapper: ERC20 -> coin before sending), ibcRecv (erc20 middleware: coin -> ERC20 on arrival), ack, timeout (refund, then coin -> ERC20), conversions of both users, pair toggles: sender debited / recipient credited / refunded by exactly the amount across both representations, every rejected step changes nothing, backing invariants in every state.",
   note="IBC legs loop packets back to the same chain over two channel ends written on ibc-go's localhost connection; one packet in flight at a time. A transfer to the module address of a disabled pair is let through by design and only over-collateralises (observation).",
   design="DESIGN.md §3 C10"),
 }
